@@ -226,6 +226,16 @@ fn rng_for(seed: u64, phase: &str, worker: usize) -> TestRng {
     TestRng::from_seed(RngAlgorithm::ChaCha, &out)
 }
 
+/// Crash isolation: when VERIF_LAST_CASE_DIR is set, every worker writes the case it is about to evaluate
+/// to <dir>/<phase>-w<idx>.json (as a replay file). If the code under test takes the whole process down
+/// (allocation failure, abort, stack overflow), the wrapper script finds the culprit among these files.
+pub fn note_case<V: Serialize>(prop: &str, engine: &str, phase: &str, worker: usize, case: &V) {
+    if let Ok(dir) = std::env::var("VERIF_LAST_CASE_DIR") {
+        let body = json!({"property": prop, "engine": engine, "case": case, "violations": [{"prop": prop, "kind": "process_aborted", "detail": "the process was killed (abort / allocation failure / stack overflow) while this case was evaluated", "signature": {"kind": "process_aborted"}}]});
+        let _ = std::fs::write(format!("{dir}/{}-w{worker}.json", phase.replace('/', "_")), body.to_string());
+    }
+}
+
 pub fn fp_of<T: std::hash::Hash>(t: &T) -> u64 {
     use std::hash::Hasher;
     let mut h = std::collections::hash_map::DefaultHasher::new();
@@ -322,6 +332,7 @@ impl Session {
                         if !failed.get() && stop.load(Ordering::Relaxed) {
                             return Ok(());
                         }
+                        note_case(this.prop, engine, phase, w, &v);
                         let rep = case_fn(&v);
                         let counting = !failed.get();
                         let mut a = agg.borrow_mut();
@@ -396,6 +407,7 @@ impl Session {
                     let mut fail = None;
                     let mut i = w;
                     while i < cases_ref.len() {
+                        note_case(this.prop, engine, phase, w, &cases_ref[i]);
                         let rep = case_fn(&cases_ref[i]);
                         agg.record(this.prop, &rep);
                         let new = this.triage(&rep, &mut agg, true);
